@@ -1,0 +1,11 @@
+//! Read-only accessors to internals, compiled only with the `verif-hooks`
+//! feature. They add no state and change no behaviour; the verification
+//! harness in /verif uses them to run internal functions on raw
+//! representations and to dump tables.
+#![allow(missing_docs, clippy::all, clippy::pedantic)]
+
+/// Version of the hook interface (bumped when an operation is added).
+#[must_use]
+pub fn hook_version() -> u32 {
+	1
+}
